@@ -52,10 +52,20 @@ def cases(tier):
             args = [draw(vg.value(t)) for _, t in m["args"]]
         # the body element of a bare response cannot be absent or nil
         rets = [draw(vg.single(t) if style != "wrapped" else vg.value(t)) for t in m["ret"]]
-        return {"U": U, "m": m, "args": args, "rets": rets,
-                "prot": draw(st.sampled_from(["xml", "soap11", "soap12"])),
+        prot = draw(st.sampled_from(["xml", "soap11", "soap12"]))
+        case = {"U": U, "m": m, "args": args, "rets": rets, "prot": prot,
                 "validator": draw(st.sampled_from([None, "soft", "lxml"])),
                 "variant": draw(st.integers(0, 3))}
+        cn = [c["name"] for c in U["classes"]]
+        if prot != "xml" and cn:
+            # SOAP headers: one or two header classes in each direction
+            for key, vkey in (("in_header", "in_hdr"), ("out_header", "out_hdr")):
+                if draw(st.integers(0, 2)) == 0:
+                    names = draw(st.lists(st.sampled_from(cn), min_size=1, max_size=2, unique=True))
+                    m[key] = names
+                    case[vkey] = [draw(st.one_of(st.none(), vg.single({"k": "ref", "n": n}))) if len(names) > 1
+                                  else draw(vg.single({"k": "ref", "n": n})) for n in names]
+        return case
     return one()
 
 
@@ -84,12 +94,20 @@ class Env(object):
         self.codec = ref_xml.Codec(self.model, U, variant=case.get("variant", 0),
                                    nil_for_none=bool(case.get("variant", 0) & 2))
         rets = [self.B.to_native(t, j) for t, j in zip(m["ret"], case["rets"])]
-        if len(rets) == 0:
-            self.rec.script[m["name"]] = lambda ctx, args: None
-        elif len(rets) == 1:
-            self.rec.script[m["name"]] = lambda ctx, args: rets[0]
-        else:
-            self.rec.script[m["name"]] = lambda ctx, args: tuple(rets)
+        oh = None
+        if case.get("out_hdr") is not None:
+            oh = [self.B.to_native({"k": "ref", "n": n}, j) for n, j in zip(m["out_header"], case["out_hdr"])]
+            oh = oh[0] if len(oh) == 1 else oh
+
+        def fn(ctx, args):
+            if oh is not None:
+                ctx.out_header = oh
+            if len(rets) == 0:
+                return None
+            if len(rets) == 1:
+                return rets[0]
+            return tuple(rets)
+        self.rec.script[m["name"]] = fn
 
     # -- request ------------------------------------------------------
     def request_element(self):
@@ -116,6 +134,16 @@ class Env(object):
             return body_el
         ns = SOAP11 if p == "soap11" else SOAP12
         envl = etree.Element(q(ns, "Envelope"), nsmap={"soapenv": ns})
+        if self.case.get("in_hdr") is not None:
+            h = etree.SubElement(envl, q(ns, "Header"))
+            for cname, j in zip(self.case["m"]["in_header"], self.case["in_hdr"]):
+                if j is None:
+                    continue
+                c = self.codec.cspec[cname]
+                tq = (c["ns"], c.get("type_name") or cname)
+                el = self.codec.root(q(*tq), prefixes=("h%d",))
+                self.codec.encode_value(el, tq, {"k": "ref", "n": cname}, j)
+                h.append(el)
         b = etree.SubElement(envl, q(ns, "Body"))
         b.append(body_el)
         return envl
@@ -170,7 +198,7 @@ def shape_of(case):
 
 
 INTERESTING = {"nested_object", "wrapped_array>=2", "unwrapped_array>=2", "xmlattr",
-               "inherited_fields", "facet", "array>10"}
+               "inherited_fields", "facet", "array>10", "soap_header"}
 
 
 def run_case(case, rec, with_clients=True):
@@ -224,10 +252,34 @@ def run_case(case, rec, with_clients=True):
                                       "%s: argument differs: %s\nrequest: %s"
                                       % (cfg, r, req.decode()[:800])))
                         break
+        # SOAP headers
+        if n_calls == 1 and case.get("in_hdr") is not None:
+            got_h = E.rec.calls[0][2]
+            names = m["in_header"]
+            got_list = [got_h] if len(names) == 1 else (list(got_h) if isinstance(got_h, (list, tuple)) else [got_h])
+            for cname, g, e in zip(names, got_list, case["in_hdr"]):
+                r = values.value_eq(E.B, {"k": "ref", "n": cname}, g, e, path="in_header:" + cname)
+                if r:
+                    fails.append(("C01|in-header|%s" % _diff_class({"k": "ref", "n": cname}, r),
+                                  "%s: ctx.in_header differs: %s\nrequest: %s" % (cfg, r, req.decode()[:800])))
+                    break
         # response
         try:
             doc = etree.fromstring(out.out_bytes)
             el, _hdr = E.unwrap(doc)
+            if case.get("out_hdr") is not None:
+                kids = [] if _hdr is None else [c for c in _hdr if isinstance(c.tag, str)]
+                for cname, e in zip(m["out_header"], case["out_hdr"]):
+                    c = E.codec.cspec[cname]
+                    tq = (c["ns"], c.get("type_name") or cname)
+                    found = [k for k in kids if k.tag == q(*tq)]
+                    g = E.codec.decode_value(found[0], tq, {"k": "ref", "n": cname}) if found else None
+                    r = values.value_eq(E.B, {"k": "ref", "n": cname}, g, e, path="out_header:" + cname)
+                    if r:
+                        fails.append(("C01|out-header|%s" % _diff_class({"k": "ref", "n": cname}, r),
+                                      "%s: soap:Header differs: %s\nresponse: %s"
+                                      % (cfg, r, out.out_bytes.decode("utf8", "replace")[:800])))
+                        break
             got = E.decode_response(el)
             for i, (rt, g, e) in enumerate(zip(m["ret"], got, case["rets"])):
                 r = values.value_eq(E.B, rt, g, e, path="ret%d" % i)
@@ -240,9 +292,43 @@ def run_case(case, rec, with_clients=True):
             fails.append(("C01|response-undecodable|%s" % type(e).__name__,
                           "%s: reference decoder cannot read the response: %r\nresponse: %s"
                           % (cfg, e, (out.out_bytes or b"").decode("utf8", "replace")[:800])))
+    # the spyne client (wrapped calls, the style it supports): request -> server -> decoded reply
+    if with_clients and m["style"] == "wrapped" and not fails and case.get("in_hdr") is None:
+        E.rec.reset()
+        native_args = [E.B.to_native(t, j) for (_, t), j in zip(m["args"], case["args"])]
+        creq, cout, cres, cerr = drive.loopback_call(E.app, m["name"], native_args)
+        if cerr is not None:
+            et, where = F.exc_origin(cerr)
+            fails.append(("C01|client-raises|%s|%s" % (et, where),
+                          "%s: the spyne client raised %r for a conformant call\nrequest: %s"
+                          % (cfg, cerr, (creq or b"")[:600])))
+        else:
+            if len(E.rec.calls) == 1:
+                for (an, at), g, e in zip(m["args"], E.rec.calls[0][1], case["args"]):
+                    r = values.value_eq(E.B, at, g, e, path=an)
+                    if r:
+                        fails.append(("C01|client-request|%s" % _diff_class(at, r),
+                                      "%s: argument sent by the spyne client differs: %s\nrequest: %s"
+                                      % (cfg, r, (creq or b"")[:800])))
+                        break
+            if len(m["ret"]) == 1:
+                got_c = [cres]
+            elif len(m["ret"]) == 0:
+                got_c = []
+            else:
+                got_c = [getattr(cres, "%sResult%d" % (m["name"], i), None) for i in range(len(m["ret"]))]
+            for i, (rt, g, e) in enumerate(zip(m["ret"], got_c, case["rets"])):
+                r = values.value_eq(E.B, rt, g, e, path="ret%d" % i)
+                if r:
+                    fails.append(("C01|client-response|%s" % _diff_class(rt, r),
+                                  "%s: the spyne client decodes the reply differently: %s\nresponse: %s"
+                                  % (cfg, r, (cout.out_bytes or b"").decode("utf8", "replace")[:800])))
+                    break
     nt = None
     has_arg = any(a is not None for a in case["args"])
     has_ret = any(r is not None for r in case["rets"])
+    if case.get("in_hdr") is not None or case.get("out_hdr") is not None:
+        labs = labs | {"soap_header"}
     if has_arg and has_ret and ((labs & INTERESTING) or any(x.startswith("ret:") and x[4:] in INTERESTING for x in labs)
                                 or m["style"] != "wrapped" or len(m["ret"]) > 1):
         nt = {"labs": sorted(labs), "cfg": cfg, "style": m["style"], "nret": len(m["ret"]),
